@@ -92,8 +92,9 @@ int_t __wrap_sp_zgemv(char *t, doublecomplex al, SuperMatrix *A, doublecomplex *
  * (kind 0: a1 = trans) or one sp_?trsv (kind 1: a1 = uplo 1 L / 2 U, a2 = trans, a3 = 1 unit diagonal).  Inside, every dense
  * kernel the sweep hands a supernode to is recorded as SvCall(code, a, b, c, offset of the matrix block in the values of L,
  * offset of the vector in B / x): 1 ?lsolve(ldm, ncol), 2 ?matvec(ldm, nrow, ncol), 3 ?usolve(ldm, ncol), 4 sp_?trsv called by
- * ?gstrs (uplo, trans, diag), 5 the BLAS ?trsv_ of the transposed sweeps (100 uplo + 10 trans + diag, n, lda).  The kernels are
- * also used by the factorization (other threads): the bracket is thread-local. */
+ * ?gstrs (uplo, trans, diag), 5 the BLAS ?trsv_ (100 uplo + 10 trans + diag, n, lda); in the USE_VENDOR_BLAS configuration also
+ * 6 ?trsm_ (1000 side + 100 uplo + 10 trans + diag, m, n, lda, ldb), 7 ?gemm_ (m, n, k, lda, ldb), 8 ?gemv_ (trans, m, n, lda, incx).
+ * The kernels are also used by the factorization (other threads): the bracket is thread-local. */
 extern void vrt_emit_list(const char *name, int p, int nargs, const long *args, const long *list, long nlist);
 static __thread int sv_depth = 0;
 static __thread const char *sv_M = 0, *sv_x = 0;
@@ -118,12 +119,13 @@ static int sv_begin(long kind, long a1, long a2, long a3, long nrhs, long ldb, S
     sv_M = (const char *) Ls->nzval; sv_x = (const char *) x; sv_es = es;
     return 1;
 }
-static void sv_call(long code, long a, long b, long c, const void *M, const void *x)
+static void sv_call8(long code, long a, long b, long c, long d, long e, const void *M, const void *x)
 {
-    long v[6]; v[0] = code; v[1] = a; v[2] = b; v[3] = c;
-    v[4] = M ? (long) (((const char *) M - sv_M) / sv_es) : 0; v[5] = (long) (((const char *) x - sv_x) / sv_es);
-    vrt_emit("SvCall", -1, 6, v);
+    long v[8]; v[0] = code; v[1] = a; v[2] = b; v[3] = c; v[4] = d; v[5] = e;
+    v[6] = M ? (long) (((const char *) M - sv_M) / sv_es) : 0; v[7] = (long) (((const char *) x - sv_x) / sv_es);
+    vrt_emit("SvCall", -1, 8, v);
 }
+static void sv_call(long code, long a, long b, long c, const void *M, const void *x) { sv_call8(code, a, b, c, 0, 0, M, x); }
 static long ucode(int c) { return (c == 'L' || c == 'l') ? 1 : 2; }
 static long dcode(int c) { return (c == 'U' || c == 'u') ? 1 : 0; }
 #define WRAP_SOLVE(P, ES) \
@@ -150,3 +152,16 @@ void slu_sv_##P##gstrs(trans_t trans, SuperMatrix *L, SuperMatrix *U, int_t *per
   __real_##P##gstrs(trans, L, U, perm_r, perm_c, B, G, info); \
   if (on) { long e[1]; e[0] = *info; vrt_emit("SvEnd", -1, 1, e); } sv_depth = 0; }
 WRAP_SOLVE(s, 4) WRAP_SOLVE(d, 8) WRAP_SOLVE(c, 8) WRAP_SOLVE(z, 16)
+/* the level-2/3 BLAS the USE_VENDOR_BLAS configuration hands the supernodes to (?trsm_ / ?gemm_ exist only in that link: weak) */
+#define WRAP_VENDOR(P) \
+extern int __real_##P##trsm_(char *, char *, char *, char *, int *, int *, void *, void *, int *, void *, int *) __attribute__((weak)); \
+int __wrap_##P##trsm_(char *side, char *uplo, char *ta, char *diag, int *m, int *n, void *alpha, void *a, int *lda, void *b, int *ldb) \
+{ if (sv_depth) sv_call8(6, 1000 * ((side[0] == 'L' || side[0] == 'l') ? 1 : 2) + 100 * ucode(uplo[0]) + 10 * tcode(ta[0]) + dcode(diag[0]), *m, *n, *lda, *ldb, a, b); \
+  return __real_##P##trsm_(side, uplo, ta, diag, m, n, alpha, a, lda, b, ldb); } \
+extern int __real_##P##gemm_(char *, char *, int *, int *, int *, void *, void *, int *, void *, int *, void *, void *, int *) __attribute__((weak)); \
+int __wrap_##P##gemm_(char *ta, char *tb, int *m, int *n, int *k, void *alpha, void *a, int *lda, void *b, int *ldb, void *beta, void *c, int *ldc) \
+{ if (sv_depth) sv_call8(7, *m, *n, *k, *lda, *ldb, a, b); return __real_##P##gemm_(ta, tb, m, n, k, alpha, a, lda, b, ldb, beta, c, ldc); } \
+extern int __real_##P##gemv_(char *, int *, int *, void *, void *, int *, void *, int *, void *, void *, int *); \
+int __wrap_##P##gemv_(char *t, int *m, int *n, void *alpha, void *a, int *lda, void *x, int *incx, void *beta, void *y, int *incy) \
+{ if (sv_depth) sv_call8(8, tcode(t[0]), *m, *n, *lda, *incx, a, x); return __real_##P##gemv_(t, m, n, alpha, a, lda, x, incx, beta, y, incy); }
+WRAP_VENDOR(s) WRAP_VENDOR(d) WRAP_VENDOR(c) WRAP_VENDOR(z)
